@@ -34,5 +34,22 @@ Script06Next ==
         [] steps = 6 -> DbReindex({})
         [] OTHER -> FALSE
 Script06Spec == InitIndexed /\ idle = 0 /\ [][Script06Next]_<<vars, idle>>
+\* Directed scenario for C11: a note of any kind / priority is added and indexed; on the next day its text, kind or
+\* priority (or that of a neighbour) is edited and the page reindexed; then again on the same day and on a third day.
+AnEdit == (\E p \in Pages, i \in 1..MaxNotes, kp \in Kinds : EditKind(p, i, kp)) \/ (\E p \in Pages, i \in 1..MaxNotes : EditBody(p, i))
+Script11Next ==
+  /\ idle' = idle
+  /\ CASE steps = 0 -> \E p \in Pages, kp \in Kinds, nl \in {1, 2} : AddNote(p, 1, kp, 0, 1, nl)
+        [] steps = 1 -> DbReindex({})
+        [] steps = 2 -> NextDay
+        [] steps = 3 -> AnEdit
+        [] steps = 4 -> DbReindex({})
+        [] steps = 5 -> AnEdit
+        [] steps = 6 -> DbReindex({})
+        [] steps = 7 -> NextDay
+        [] steps = 8 -> AnEdit \/ (\E p \in Pages, i \in 1..MaxNotes : StripMd(p, i))
+        [] steps = 9 -> DbReindex({})
+        [] OTHER -> FALSE
+Script11Spec == InitIndexed /\ idle = 0 /\ [][Script11Next]_<<vars, idle>>
 ScriptSpec == InitIndexed /\ idle = 0 /\ [][ScriptNext]_<<vars, idle>>
 =============================================================================
